@@ -291,6 +291,7 @@ pub fn c11(out: &mut Out, thorough: bool) {
         }
         search_cases(out, t, &hist, &kvals);
     }
+    positional_no_trap(out, &mut rng, thorough);
 }
 
 
@@ -496,11 +497,176 @@ pub fn gen_lines(per_class: usize, seed: u64, path: &str) {
     eprintln!("{:?} after {tries} tries", found.iter().map(|v| v.len()).collect::<Vec<_>>());
 }
 
+/// one-off corpus builder: `harness gen-materoots <per-class> <seed> <outfile>` searches sparse positions for roots with a
+/// mate in one of a rare kind (by the rules as the clean tree implements them); the roots are written as FEN with the
+/// class as a comment and are searched on every run of C12 (and C11/C13 sample them)
+pub fn gen_mate_roots(per_class: usize, seed: u64, path: &str) {
+    use chess_bitboard::{Piece, PromotionPiece};
+    use chess_movegen::GameState;
+    let names = ["pinned-pawn-takes-its-pinner-and-promotes", "knight-promotion-only", "en-passant-mate", "castling-mate",
+        "push-promotion-mate-with-capture-promotion-and-other-captures-on-offer", "discovered-mate", "double-check-mate", "rook-or-bishop-promotion-only",
+        "quiet-mate-with-mating-recapture-threat-on-the-first-capture"];
+    let mut found: Vec<Vec<String>> = vec![Vec::new(); names.len()];
+    let mut rng = Rng::new(seed ^ 0x3A7E);
+    let mut tries = 0u64;
+    while found.iter().any(|v| v.len() < per_class) && tries < 40_000_000 {
+        tries += 1;
+        let mut sq = [b'.'; 64];
+        let mut rights = 0u8;
+        let white = rng.chance(1, 2);
+        let (own, opp) = if white { (b"QRRBBNNPPP".as_ref(), b"qrbnppp".as_ref()) } else { (b"qrrbbnnppp".as_ref(), b"QRBNPPP".as_ref()) };
+        // the king to be mated: on an edge most of the time
+        let ek = if rng.chance(3, 4) { let e = rng.below(28); (if e < 8 { e } else if e < 16 { 56 + e - 8 } else if e < 22 { (e - 15) * 8 } else { (e - 21) * 8 + 7 }) as usize } else { rng.below(64) as usize };
+        let mut ok = rng.below(64) as usize;
+        if rng.chance(1, 6) {
+            // castling material for the mating side
+            ok = if white { 4 } else { 60 };
+            let (ra, rh) = if white { (0usize, 7usize) } else { (56, 63) };
+            if rng.chance(1, 2) { sq[ra] = if white { b'R' } else { b'r' }; rights |= if white { 2 } else { 8 }; }
+            else { sq[rh] = if white { b'R' } else { b'r' }; rights |= if white { 1 } else { 4 }; }
+        }
+        if ek == ok || sq[ek] != b'.' || sq[ok] != b'.' {
+            continue;
+        }
+        sq[ek] = if white { b'k' } else { b'K' };
+        sq[ok] = if white { b'K' } else { b'k' };
+        let seventh = if white { 6usize } else { 1usize };
+        if rng.chance(1, 2) {
+            let i = seventh * 8 + rng.below(8) as usize;
+            if sq[i] == b'.' { sq[i] = if white { b'P' } else { b'p' }; }
+        }
+        for _ in 0..(1 + rng.below(6)) {
+            let c = *rng.pick(own);
+            let i = rng.below(64) as usize;
+            if sq[i] == b'.' && !((c == b'P' || c == b'p') && (i / 8 == 0 || i / 8 == 7)) { sq[i] = c; }
+        }
+        for _ in 0..rng.below(6) {
+            let c = *rng.pick(opp);
+            let i = if rng.chance(1, 2) { let d = [1i32, -1, 8, -8, 7, -7, 9, -9][rng.below(8) as usize]; (ek as i32 + d).clamp(0, 63) as usize } else { rng.below(64) as usize };
+            if sq[i] == b'.' && !((c == b'P' || c == b'p') && (i / 8 == 0 || i / 8 == 7)) { sq[i] = c; }
+        }
+        let fen = fen_of(&sq, white, rights, None, rng.below(20) as u32, 1 + rng.below(30) as u32);
+        let Ok(b0) = chess_movegen::fen::parse_fen(fen.as_bytes()) else { continue };
+        // an en-passant marker needs a history: also try every double step of the other side from a flipped-turn twin
+        let mut roots: Vec<Board> = vec![b0];
+        if rng.chance(1, 3) {
+            if let Ok(t) = chess_movegen::fen::parse_fen(fen_of(&sq, !white, 0, None, 0, 1).as_bytes()) {
+                for m in t.legals() {
+                    let (sr, dr) = (m.source.to_u8() / 8, m.dest.to_u8() / 8);
+                    if t.raw().get(m.source).map(|x| x.1) == Some(Piece::Pawn) && (sr as i32 - dr as i32).abs() == 2 {
+                        if let Some(nb) = t.move_new(m) { roots.push(nb); }
+                    }
+                }
+            }
+        }
+        for b in roots {
+            let v = view(&b);
+            let legal: Vec<ChessMove> = b.legals().collect();
+            let mates: Vec<ChessMove> = legal.iter().copied().filter(|&m| b.move_new(m).map(|nb| nb.state() == GameState::CheckMate).unwrap_or(false)).collect();
+            if mates.is_empty() { continue; }
+            let fen_b = fen_of_view(&v);
+            let enemy = b[!b.turn()].to_u64();
+            let captures: Vec<ChessMove> = legal.iter().copied().filter(|m| enemy & (1u64 << m.dest.to_u8()) != 0).collect();
+            let mover = |m: &ChessMove| b.raw().get(m.source).map(|x| x.1);
+            let is_cap = |m: &ChessMove| enemy & (1u64 << m.dest.to_u8()) != 0;
+            let mut classes: Vec<usize> = Vec::new();
+            // 0: every mate is a capture-promotion by a pinned pawn of its pinner
+            if mates.iter().all(|m| m.piece.is_some() && is_cap(m) && v.pinned & (1u64 << m.source.to_u8()) != 0) { classes.push(0); }
+            if mates.iter().all(|m| m.piece == Some(PromotionPiece::Knight)) { classes.push(1); }
+            if mates.iter().all(|m| mover(m) == Some(Piece::Pawn) && !is_cap(m) && m.source.to_u8() % 8 != m.dest.to_u8() % 8) { classes.push(2); }
+            if mates.iter().all(|m| mover(m) == Some(Piece::King) && (m.source.to_u8() as i32 % 8 - m.dest.to_u8() as i32 % 8).abs() == 2) { classes.push(3); }
+            if mates.iter().all(|m| m.piece.is_some() && !is_cap(m)) && mates.iter().any(|m| legal.iter().any(|c| c.source == m.source && c.piece.is_some() && is_cap(c)))
+                && captures.iter().any(|c| c.piece.is_none()) { classes.push(4); }
+            if mates.iter().all(|m| {
+                let nb = b.move_new(*m).unwrap();
+                let nv = view(&nb);
+                let chk = nv.checkers | (nv.checkers & nv.pinned);
+                chk & (1u64 << m.dest.to_u8()) == 0 && m.piece.is_none()
+            }) { classes.push(5); }
+            if mates.iter().all(|m| { let nv = view(&b.move_new(*m).unwrap()); nv.checkers.count_ones() >= 2 }) { classes.push(6); }
+            if mates.iter().all(|m| matches!(m.piece, Some(PromotionPiece::Rook) | Some(PromotionPiece::Bishop))) { classes.push(7); }
+            // 8: the mate is quiet, and the first capture in generation order allows a reply that mates the root side
+            if mates.iter().all(|m| !is_cap(m)) {
+                if let Some(c0) = captures.first() {
+                    if let Some(nb) = b.move_new(*c0) {
+                        if nb.legals().any(|r| nb.move_new(r).map(|x| x.state() == GameState::CheckMate).unwrap_or(false)) { classes.push(8); }
+                    }
+                }
+            }
+            for c in classes {
+                if found[c].len() < per_class && !found[c].contains(&fen_b) {
+                    found[c].push(fen_b.clone());
+                }
+            }
+        }
+    }
+    let mut text = String::from("# roots with a mate in one of a rare kind (found by `harness gen-materoots`, see harness/src/engine.rs)\n");
+    for (i, v) in found.iter().enumerate() {
+        text.push_str(&format!("# {} ({})\n", names[i], v.len()));
+        for l in v {
+            text.push_str(l);
+            text.push('\n');
+        }
+    }
+    std::fs::write(path, text).unwrap();
+    eprintln!("{:?} after {tries} tries", found.iter().map(|v| v.len()).collect::<Vec<_>>());
+}
+
+pub fn load_mate_roots() -> Vec<String> {
+    let path = concat!(env!("CARGO_MANIFEST_DIR"), "/../corpus/mate_roots.txt");
+    std::fs::read_to_string(path)
+        .map(|s| s.lines().map(|l| l.trim().to_string()).filter(|l| !l.is_empty() && !l.starts_with('#')).collect())
+        .unwrap_or_default()
+}
+
 pub fn load_ep_only_reply() -> Vec<String> {
     let path = concat!(env!("CARGO_MANIFEST_DIR"), "/../corpus/ep_only_reply.txt");
     std::fs::read_to_string(path)
         .map(|s| s.lines().map(|l| l.trim().to_string()).filter(|l| !l.is_empty() && !l.starts_with('#')).collect())
         .unwrap_or_default()
+}
+
+/// `Engine { positional: true, .. }` is not the shipped configuration and is not modelled, but `positional` is a public
+/// field: a search with it must neither panic nor return an illegal move either
+pub fn positional_no_trap(out: &mut Out, rng: &mut Rng, thorough: bool) {
+    let mut ps: Vec<Tagged> = positions(rng, if thorough { 600 } else { 60 });
+    // kings on every rank and file (the positional tables are indexed by the king squares, one of them rank-flipped)
+    for k in 0..64usize {
+        let mut sq = [b'.'; 64];
+        let wk = (k + 27) % 64;
+        if (k as i32 % 8 - wk as i32 % 8).abs() <= 1 && (k as i32 / 8 - wk as i32 / 8).abs() <= 1 {
+            continue;
+        }
+        sq[k] = b'k';
+        sq[wk] = b'K';
+        let r = (k * 7 + 13) % 64;
+        if sq[r] == b'.' {
+            sq[r] = if k % 2 == 0 { b'R' } else { b'r' };
+        }
+        for white in [true, false] {
+            if let Some(b) = crate::common::guard(|| chess_movegen::fen::parse_fen(fen_of(&sq, white, 0, None, 0, 1).as_bytes()).ok()).flatten() {
+                ps.push(Tagged { board: b, tag: "king-on-every-square" });
+            }
+        }
+    }
+    for t in ps.iter() {
+        let b = t.board;
+        let p = pos64(&view(&b));
+        for k in [0u64, 60, 600] {
+            let mut mv: Option<Option<ChessMove>> = None;
+            out.case("positional-no-panic", true, format!("expect no-trap #positional {p} k={k}"), || {
+                let tf = ThreeFold::new();
+                let mut e = Engine { positional: true, ..Engine::default() };
+                let tmo = CountingTimeout { k, polls: Cell::new(0) };
+                let (m, _s) = e.search(&b, &tf, &tmo);
+                mv = Some(m);
+                "no-trap".into()
+            });
+            if let Some(Some(m)) = mv {
+                out.record("positional-move-legal", true, format!("pos islegal {p} {}", mv_str(m)), "true".into());
+            }
+        }
+    }
 }
 
 pub fn c12(out: &mut Out, thorough: bool) {
@@ -528,6 +694,12 @@ pub fn c12(out: &mut Out, thorough: bool) {
     for f in eps.iter().take(take) {
         if let Some(b) = crate::common::guard(|| chess_movegen::fen::parse_fen(f.as_bytes()).ok()).flatten() {
             ps.push(Tagged { board: b, tag: "check-answered-only-en-passant" });
+        }
+    }
+    // roots with a mate in one of a rare kind (fixed corpus)
+    for f in load_mate_roots() {
+        if let Some(b) = crate::common::guard(|| chess_movegen::fen::parse_fen(f.as_bytes()).ok()).flatten() {
+            ps.push(Tagged { board: b, tag: "rare-mate-in-one" });
         }
     }
     for t in ps.iter() {
@@ -727,8 +899,8 @@ pub fn c15(out: &mut Out, thorough: bool, lib: &str) {
         let line_s = toks.join(" ");
         out.record(kind, true, format!("bot {line_s}"), line_s.clone());
     }
-    // the u8 counter: a long knight shuffle repeats one position hundreds of times
-    if thorough {
+    // the u8 counter: a long knight shuffle repeats one position hundreds of times (more than 256)
+    {
         let mut eng = api.new_engine();
         let mut toks: Vec<String> = Vec::new();
         let cyc = ["g1f3", "g8f6", "f3g1", "f6g8"];
